@@ -20,10 +20,104 @@ ASSUMPTIONS = [
 def plan(tier, seed):
     sp = progwork.shards(tier, 1500, 30000, exhaustive=(tier == 'thorough'))
     from hv import realwork
+    n = 3 if tier == 'quick' else 20
+    for y in (2021, 2022, 2023):
+        sp.append({'kind': 'cli', 'year': y, 'families': ['F8', 'F0', 'F2', 'F3', 'F1', 'F4'], 'n': n})
+        sp.append({'kind': 'cli', 'year': y, 'families': ['F8', 'F10', 'F9', 'F5', 'F8', 'F6'], 'n': n})
     return sp + realwork.shards('C13', tier)
 
 
+def run_cli_history(spec, tier, seed):
+    """The same history through the real CLI: run 1 `solve --prompt-missing
+    --writeback-input --solution s1` from an (almost) empty file, run 2 on the
+    written file with a prompt that records and refuses.  Also checks the text
+    of every prompt: the lines quoted as needing the input are exactly the
+    waiting lines the solver handed to the prompt function."""
+    import os
+    import re
+    import tempfile
+    from hv import hx, scen, cli
+    from hv.monitors import c20
+    res = Result()
+    year = spec['year']
+    lookup = c20.InputLookup(year)
+    for k in range(spec['n']):
+        fam = spec['families'][k % len(spec['families'])]
+        p = scen.Persona(year, fam, f'c13cli:{seed}:{k}')
+        tmp = tempfile.mkdtemp(prefix='hv_c13_')
+        try:
+            path = os.path.join(tmp, 'in.ini')
+            s1, s2 = os.path.join(tmp, 's1.ini'), os.path.join(tmp, 's2.ini')
+            current = {}
+            orig_prompt = hx.habutax.prompt_input
+
+            def spy(missing, needed_by):
+                current['name'] = missing.name()
+                current['expected'] = {((f.form().instance() or None), f.form().full_description(), f.base_name()) for f in needed_by}
+                return orig_prompt(missing, needed_by)
+
+            def on_prompt(text):
+                if 'Additional input is needed by' not in text:
+                    return
+                res.count('cli_prompt_texts_checked')
+                got = set()
+                for line in text.split('\n'):
+                    m = re.match(r"^ \* (?:Instance '([^']*)' of )?(.*), line '([^']*)'$", line)
+                    if m:
+                        got.add((m.group(1), m.group(2), m.group(3)))
+                if current.get('expected') is not None and got != current['expected']:
+                    wrong = sorted(got - current['expected'])[:2]
+                    res.violation('C13|cli|prompt-quotes-wrong-lines', f'{year} {fam}: the prompt for {current.get("name")} quotes {wrong} which are not among the lines waiting for it '
+                                  f'({sorted(current["expected"])[:2]}...)', {'engine': 'cli-history', 'persona': p.describe(), 'input': current.get('name'), 'shard': spec})
+                if len(current.get('expected') or ()) > 1 and len({e[1] for e in current['expected']}) > 1:
+                    res.count('cli_prompts_with_waiters_of_several_forms')
+            hx.habutax.prompt_input = spy
+            try:
+                def a(name):
+                    return p.answer(lookup.get(name))
+                a.lookup = lookup
+                r1, given = c20.session(year, p.forms(), path, a, extra_args=['--solution', s1], on_prompt=on_prompt)
+            finally:
+                hx.habutax.prompt_input = orig_prompt
+            res.evaluations += 1
+            res.count('cli_histories')
+            if r1.exc is not None or 'Successfully solved' not in r1.stdout:
+                res.count('cli_run1_unsolved')
+                continue
+            asked = []
+
+            def a2(name):
+                asked.append(name)
+                raise KeyboardInterrupt()
+            a2.lookup = lookup
+            r2, given2 = c20.session(year, p.forms(), path, a2, extra_args=['--solution', s2])
+            res.evaluations += 1
+            res.count('cli_histories_complete')
+            res.distinct.add(f'cli|{year}|{fam}|{len(given)}')
+            rp = {'engine': 'cli-history', 'persona': p.describe(), 'shard': spec}
+            if asked:
+                res.violation('C13|cli|second-run-asks', f'{year} {fam}: the re-run on the written-back file asked for {asked[:3]}', rp)
+            elif not os.path.exists(s2):
+                res.violation('C13|cli|second-run-differs', f'{year} {fam}: the re-run produced no solution ({r2.exc or r2.stdout[-150:]})', rp)
+            else:
+                # identical as a solution (sections, lines, values); the order in which
+                # lines were solved, hence written, is not part of it
+                m1, m2 = c20.parse(s1), c20.parse(s2)
+                if m1 != m2:
+                    d = sorted(k for k in set(m1) | set(m2) if m1.get(k) != m2.get(k))
+                    res.violation('C13|cli|second-run-differs', f'{year} {fam}: the re-run on the written-back file gives a different solution: '
+                                  f'{[(k, m1.get(k), m2.get(k)) for k in d[:3]]}', rp)
+            if len(res.samples) < 1:
+                res.sample({'persona': p.describe(), 'run1_prompts': len(given), 'run2_prompts': len(asked), 'solution_identical': True})
+        finally:
+            import shutil
+            shutil.rmtree(tmp, ignore_errors=True)
+    return res
+
+
 def run_shard(spec, tier, seed):
+    if spec['kind'] == 'cli':
+        return run_cli_history(spec, tier, seed)
     if spec['kind'] == 'real':
         from hv import realwork
         return realwork.run_shard('C13', spec, tier, seed)
@@ -86,4 +180,8 @@ def finalize(res, tier):
         res.inconclusive.append('fewer than 500 prompt events checked')
     if c.get('histories', 0) < 100:
         res.inconclusive.append('fewer than 100 three-run histories')
+    if c.get('cli_histories_complete', 0) < 6:
+        res.inconclusive.append(f'only {c.get("cli_histories_complete", 0)} complete CLI histories')
+    if c.get('cli_prompts_with_waiters_of_several_forms', 0) < 1:
+        res.inconclusive.append('no CLI prompt with waiting lines of several forms was observed')
     return {}
